@@ -362,8 +362,10 @@ func (s *Sim) opDisconnect() {
 	s.chain = s.chain[:len(s.chain)-1]
 	b.onChain = false
 	s.depth++
-	if s.tip() < s.epochLowTip {
-		s.epochLowTip = s.tip()
+	for _, g := range s.groups {
+		if g.regEpoch != s.epoch && s.tip() < g.unwatchedLow {
+			g.unwatchedLow = s.tip()
+		}
 	}
 	if s.depth >= 2 {
 		s.R.Count("probe_deep_reorg")
@@ -400,7 +402,7 @@ func (s *Sim) reqFor(key string, mk func() *reqState) *reqState {
 		gk = fmt.Sprintf("ct:%d", rs.txIdx)
 	}
 	if s.groups[gk] == nil {
-		s.groups[gk] = &hintGroup{allOK: true, regEpoch: -1}
+		s.groups[gk] = &hintGroup{allOK: true, regEpoch: -1, unwatchedLow: noLow}
 	}
 	rs.grp = s.groups[gk]
 	rs.registered, rs.outstanding, rs.dropped, rs.multi, rs.stale = false, nil, false, false, false
@@ -569,19 +571,16 @@ func (s *Sim) register(c *client) {
 	if rs.grp.regEpoch != s.epoch {
 		// Assumption: a persisted hint is only relied upon for requests that
 		// were being watched whenever the chain was rolled back below it. If
-		// this notifier instance saw a reorg below the hint before anybody
-		// registered the request (equivalent to a reorg while offline), the
+		// a reorg went below the hint while no notifier instance had the
+		// request registered (equivalent to a reorg while offline), the
 		// hint may be stale through no fault of the notifier, and what is
 		// then written on top of it stays in the database.
 		rs.grp.regEpoch = s.epoch
-		lim := s.epochStartTip
-		if cached < lim {
-			lim = cached
-		}
-		if hasCached && s.epochLowTip < lim {
+		if hasCached && rs.grp.unwatchedLow < cached {
 			rs.grp.allOK = false
 			r.Count("probe_unwatched_reorg")
 		}
+		rs.grp.unwatchedLow = noLow
 	}
 	rs.registered = true
 	rs.grp.allOK = rs.grp.allOK && hintOK
